@@ -130,29 +130,39 @@ inductive CArg where
   | outp                    -- an out-pointer (carries nothing on the way in)
 deriving Repr, Inhabited, BEq
 
-/-- the caller turns the WIT argument tuple into C arguments -/
-def passParam (vs : List Val) : CParam → Option CArg
-  | .byValue i => vs[i]?.map .val
-  | .byPointer i => vs[i]?.map .ptr
-  | .maybe i => match vs[i]? with
-      | some (.variant 0 none) => some .null
-      | some (.variant 1 (some v)) => some (.ptr v)
-      | _ => none
-  | .out _ => some .outp
+/-- the caller turns one WIT argument into the C argument of its parameter -/
+def passOne : CParam → Val → Option CArg
+  | .byValue _, v => some (.val v)
+  | .byPointer _, v => some (.ptr v)
+  | .maybe _, .variant 0 none => some .null
+  | .maybe _, .variant 1 (some v) => some (.ptr v)
+  | .maybe _, _ => none
+  | .out _, _ => none
 
-def passParams (sig : Sig) (vs : List Val) : Option (List CArg) := sig.params.mapM (passParam vs)
+/-- the callee recovers the WIT argument from the C argument -/
+def recvOne : CParam → CArg → Option Val
+  | .byValue _, .val v => some v
+  | .byPointer _, .ptr v => some v
+  | .maybe _, .null => some (.variant 0 none)
+  | .maybe _, .ptr v => some (.variant 1 (some v))
+  | _, _ => none
 
-/-- the callee recovers WIT argument `i` from the C arguments -/
-def recvParamAt : List CParam → List CArg → Nat → Option Val
-  | .byValue j :: ps, .val v :: as, i => if i = j then some v else recvParamAt ps as i
-  | .byPointer j :: ps, .ptr v :: as, i => if i = j then some v else recvParamAt ps as i
-  | .maybe j :: ps, .null :: as, i => if i = j then some (.variant 0 none) else recvParamAt ps as i
-  | .maybe j :: ps, .ptr v :: as, i => if i = j then some (.variant 1 (some v)) else recvParamAt ps as i
-  | _ :: ps, _ :: as, i => recvParamAt ps as i
-  | _, _, _ => none
+/-- all WIT arguments, positionally, over the leading (non-`out`) C parameters -/
+def passAll : List CParam → List Val → Option (List CArg)
+  | [], [] => some []
+  | c :: cs, v :: vs => do
+      let a ← passOne c v
+      let as ← passAll cs vs
+      pure (a :: as)
+  | _, _ => none
 
-def recvParams (sig : Sig) (n : Nat) (as : List CArg) : Option (List Val) :=
-  (List.range n).mapM (recvParamAt sig.params as)
+def recvAll : List CParam → List CArg → Option (List Val)
+  | [], [] => some []
+  | c :: cs, a :: as => do
+      let v ← recvOne c a
+      let vs ← recvAll cs as
+      pure (v :: vs)
+  | _, _ => none
 
 /-- what comes back from a C call: the C return value and what was written through each out-pointer -/
 structure CBack where
